@@ -27,7 +27,7 @@ from docfamily import tlajson_to_tla
 from report import Reporter
 
 TIERS = {"quick": dict(MaxEdges=2, MaxNodes=2, Wide="FALSE"),
-         "thorough": dict(MaxEdges=3, MaxNodes=2, Wide="TRUE")}
+         "thorough": dict(MaxEdges=2, MaxNodes=2, Wide="TRUE")}   # 280k document sets; 3 edges is millions
 SEEDS_WANTED = 6
 
 
